@@ -1,5 +1,23 @@
+import hashlib as _hl19, os as _os19
+
+_verif19 = _os19.path.dirname(_os19.path.dirname(_os19.path.dirname(_os19.path.abspath(__file__))))
+_repo19 = _os19.environ.get("GV_REPO", "/repo")
+
+
+def _tools_digest19():
+    # the harness compiles $GV_REPO/tools/Gravity.cpp and MagneticField.cpp into itself: make the harness cache key depend on their text
+    h = _hl19.sha256()
+    for f in ("Gravity.cpp", "MagneticField.cpp"):
+        try:
+            h.update(open(_os19.path.join(_repo19, "tools", f), "rb").read())
+        except OSError:
+            h.update(b"missing")
+    return h.hexdigest()[:16]
+
+
 PROPS["C19"] = dict(
-    harnesses=[dict(name="C19", procs_quick=2, procs_thorough=16)],
+    harnesses=[dict(name="C19", procs_quick=2, procs_thorough=16,
+                    extra=["-I" + _os19.path.join(_verif19, "harness", "C19_tools"), "-DGV_TOOLS_DIGEST=0x" + _tools_digest19()])],
     gens=[],
     rule=("coefficient storage: every (N, nmx, mmx, stored order) with N <= 5 (8 thorough) incl. invalid dimensions, every (n, m) of each, plus random "
           "layouts to degree 60; harmonic sums: L = 1, 2, 3 coefficient sets, FULL and SCHMIDT, first set truncated below its layout, secondary sets "
